@@ -351,8 +351,14 @@ def run_property(mod, tier, seed, replay=None):
             if allp:
                 b1, _, _, errs = run_shards(mod, terms, scratch, 'relax_all', preds=[allp])
                 ball = set(b1) if not errs else None
+            guard = getattr(mod, 'relax_guard', None)
             for j, i in enumerate(sub):
                 fs = [f for f, _ in relax if j not in singles[f]]
+                if guard is not None:
+                    # the finding's trigger pattern must be present in the case as well
+                    fs = [f for f in fs if guard(cases[i], ev['obs'][i], f)]
+                    if not fs and not all(guard(cases[i], ev['obs'][i], f) for f, _ in relax):
+                        continue
                 if fs:
                     out[i] = fs
                 elif ball is not None and j not in ball:
